@@ -350,6 +350,36 @@ def rule_k(F):
                     res.append(bad("C15.K", key, f.loc(x["ln"]), "compile error built inside Compiler without the current card's trace"))
             if x.get("k") == "struct" and short(x["path"]["res"].get("path", "")).endswith("CompilationError"):
                 res.append(bad("C15.K", "C15/K/%s/literal" % f.name, f.loc(x["ln"]), "CompilationError literal bypasses with_loc/self.trace()"))
+    # push_instruction records self.trace() - built from the *current* namespace and index - for the instruction it emits
+    pi = F.fn("compiler::Compiler::push_instruction")
+    ins = [x for x in hir_walk(pi.hir["body"]) if x.get("k") == "mcall" and x["name"] == "insert" and
+           (hu.field_chain(x["recv"]) or (None, []))[1][-1:] == ["trace"]]
+    key = "C15/K/push_instruction/records-current-trace"
+    if not ins:
+        res.append(bad("C15.K", key, pi.loc(), "push_instruction does not record a trace entry"))
+    else:
+        for x in ins:
+            v = hu.strip_all(x["args"][1])
+            # peel clone()
+            while v is not None and v.get("k") == "mcall" and v["name"] in ("clone", "to_owned"):
+                v = hu.strip_all(v["recv"])
+            fresh = v is not None and v.get("k") == "mcall" and "compiler::Compiler::trace" in hir_callee(v)
+            if fresh:
+                res.append(ok("C15.K", key, pi.loc(x["ln"]), "the entry is self.trace() evaluated at the emission"))
+            else:
+                # a cached trace: every refresh must be keyed on namespace AND index
+                conds = [y for y in hir_walk(pi.hir["body"]) if y.get("k") == "if" and any(
+                    z.get("k") == "mcall" and "compiler::Compiler::trace" in hir_callee(z) for z in hir_walk(y["then"]))]
+                fields = set()
+                for c in conds:
+                    fields |= set(z["name"] for z in hir_walk(c["cond"]) if z.get("k") == "field")
+                if conds and {"current_index"} <= fields and ({"current_namespace", "namespace"} & fields):
+                    res.append(ok("C15.K", key, pi.loc(x["ln"]), "cached trace, refreshed when the namespace or the index changes"))
+                else:
+                    res.append(bad("C15.K", key, pi.loc(x["ln"]),
+                                   "push_instruction records a cached trace that is refreshed on a change of the card index only (compared: %s): "
+                                   "a card index is relative to its module, so the first instruction of a function in another module with an "
+                                   "equal index inherits the previous function's namespace - the trace names the wrong module" % sorted(fields)))
     # Compiler::trace uses current_namespace and current_index
     t = F.fn("compiler::Compiler::trace")
     fields = set(x["name"] for x in hir_walk(t.hir["body"]) if x.get("k") == "field")
@@ -476,7 +506,7 @@ RULES = [
     Rule("C15.I", rule_i, 40, "compiler child numbering equals Card::get_child for every card kind"),
     Rule("C15.P", rule_p, 50, "runtime errors are located at the failing instruction's opcode position"),
     Rule("C15.C", rule_c, 3, "call frames record the CallFunction opcode position"),
-    Rule("C15.K", rule_k, 3, "compile errors raised by Compiler carry the current card"),
+    Rule("C15.K", rule_k, 4, "compile errors raised by Compiler carry the current card"),
     Rule("C15.G", rule_g, 30, "a card's own instructions are recorded under its own index"),
     Rule("C15.F", rule_f, 1, "every active call frame contributes one trace entry"),
 ]
